@@ -86,6 +86,8 @@ type replayResult struct {
 
 // runNative runs the jobs against the natively compiled code (go test with the
 // harness injected through -overlay; /repo is not touched).
+var verboseAudit = os.Getenv("VERIF_AUDIT") != ""
+
 func runNative(repoDir, harnessDir string, jobs []replayJob) (map[string]replayResult, string, error) {
 	var wants []string
 	for _, j := range jobs {
@@ -592,7 +594,22 @@ func writeEvidence(spec *CheckSpec, tier string, seed int, results []*HarnessRes
 				hs = &spec.Harnesses[i]
 			}
 		}
+		var concreteOnly, symbolicSeen []string
+		for k, u := range r.FieldUses {
+			if u.Symbolic == 0 {
+				concreteOnly = append(concreteOnly, k)
+			} else {
+				symbolicSeen = append(symbolicSeen, k)
+			}
+		}
+		sort.Strings(concreteOnly)
+		sort.Strings(symbolicSeen)
+		if verboseAudit {
+			fmt.Printf("  audit %s: scalar-symbolic fields touched by repository code: %v\n  audit %s: fields touched but never holding a symbolic scalar (structure, or a concretised input): %v\n", r.Name, symbolicSeen, r.Name, concreteOnly)
+		}
 		harnessSumm = append(harnessSumm, map[string]interface{}{
+			"state_fields_touched_holding_symbolic_values": symbolicSeen,
+			"state_fields_touched_concrete_on_every_path":  concreteOnly,
 			"harness": r.Name, "lemma": hs.Lemma, "bounds": hs.Bounds, "paths": r.Paths, "path_ends": r.Ends,
 			"assertions_discharged_unsat_or_concrete": r.AssertsOK, "violated_labels": r.ViolCount, "solver_queries": r.Queries,
 			"ssa_instructions_executed": r.Steps, "path_decisions": r.Decisions, "branches_decided_by_interval_reasoning": r.RangeDecided, "reach_witnesses": reached, "wall_s": r.Wall, "sample_decision_vectors": r.SamplePaths,
